@@ -236,6 +236,16 @@ type Built struct {
 	G     *verifier.Graph
 	Certs []*Cert // per edge of Spec
 	IDs   []string
+	// History is set when G was not built from Spec in one go but reached it by insertions interleaved with
+	// walks (growth histories): the full specification, how many of its edges are in, and the order.
+	History *History
+}
+
+// History describes how a graph under test reached its state.
+type History struct {
+	Full    *Spec `json:"full_specification"`
+	Step    int   `json:"insertions_done"`
+	Reverse bool  `json:"inserted_in_reverse_order"`
 }
 
 // Build mints the certificates of s and inserts them (AddRoot for root edges,
